@@ -54,6 +54,7 @@ func Run(r *ev.Run) {
 
 	if _, _, worker := par.Shard(); !worker {
 		runPivotPair(r)
+		runIssueVsCompletion(r)
 	}
 	start := time.Now()
 	par.Run(r, nShards, budget+45*time.Second, func(i, n int, r *ev.Run) {
